@@ -1681,4 +1681,112 @@ theorem absResults_no_panic (cfg : Cfg) : ∀ (ops : List Op) (c : Cnt) (p : Pan
       · split at h <;> cases h
       · exact ih _ p h
 
+theorem hyp_results (cfg : Cfg) (ops : List Op) (h : Hyp cfg ops) :
+    results cfg State.init ops = absResults cfg Cnt.zero ops :=
+  sim_results cfg (cfgOK_wf cfg h.hcfg) ops State.init Cnt.zero ((cfg.count : Int) * cfg.interval) [] []
+    (sim_init cfg _) h.hnow h.hsafe
+
+theorem observed_eq (cfg : Cfg) (ops : List Op) (h : Hyp cfg ops) :
+    observe ops (results cfg State.init ops) = absObs cfg Cnt.zero (evs ops) := by
+  rw [hyp_results cfg ops h, observe_abs]
+
+/-- what `rejectOK` says, as a proposition: every discarded event of a rule with limit ≥ 0 and
+    no distribution saw arrivals (itself included) above the limit in its bucket -/
+theorem rejectOK_spec (cfg : Cfg) : ∀ (obs : List (Ev × Bool)) (pre : List Ev),
+    rejectOK cfg pre obs = true →
+    ∀ (a : List (Ev × Bool)) (x : Ev × Bool) (b : List (Ev × Bool)), obs = a ++ x :: b → x.2 = false →
+    ∀ ir, ruleOf cfg x.1 = some ir → ir.2.distr.isEnabled = false → 0 ≤ ir.2.limit →
+      ir.2.limit < arrived cfg (limKey ir.1 (throttleKey x.1)) (attr cfg x.1) (pre ++ a.map (·.1) ++ [x.1]) := by
+  intro obs
+  induction obs with
+  | nil => intro pre _ a x b h; simp at h
+  | cons y t ih =>
+    intro pre hrej a x b hsplit hx ir hro hd h0
+    simp only [rejectOK, Bool.and_eq_true] at hrej
+    cases a with
+    | nil =>
+      simp only [List.nil_append, List.cons.injEq] at hsplit
+      obtain ⟨hy, _⟩ := hsplit
+      subst hy
+      have h1 := hrej.1
+      rw [hro] at h1
+      have hnot : ¬ ((y.2 || ir.2.distr.isEnabled || decide (ir.2.limit < 0)) = true) := by
+        rw [hx, hd]; simp; omega
+      simpa [hnot] using h1
+    | cons a0 a' =>
+      simp only [List.cons_append, List.cons.injEq] at hsplit
+      obtain ⟨hy, ht⟩ := hsplit
+      subst hy
+      have := ih (pre ++ [y.1]) hrej.2 a' x b ht hx ir hro hd h0
+      simpa [List.append_assoc] using this
+
+/-! ### concrete instances used by the non-vacuity examples of Props/C16.lean -/
+
+def ka : Bytes := [97]
+def kb : Bytes := [98]
+/-- buckets_count 2, bucket_interval 10, one (default) rule: limit 1, count kind -/
+def cfg1 : Cfg := ⟨2, 10, [⟨[], 1, .count, Distr.empty⟩]⟩
+def ev1 (key : Bytes) (ts now : Int) : Op := .ev ⟨key, ts, now, 1, []⟩
+/-- two events of key a in bucket 10, one of key b, a jump of three windows, key a again -/
+def ops1 : List Op := [ev1 ka 100 100, ev1 ka 105 105, ev1 kb 103 106, ev1 ka 165 165, ev1 ka 100 166]
+
+theorem hyp1 : Hyp cfg1 ops1 :=
+  ⟨by decide, by decide, safe_of_noExpire cfg1 ops1 [] [] (fun _ h => by cases h) (by decide)⟩
+
+/-- the same with the limiter of key a expiring during the jump: allowed, nothing of a's history
+    is inside the window when a comes back -/
+def ops2 : List Op := [ev1 ka 100 100, ev1 ka 105 105, .expire (limKey 0 ka), ev1 ka 165 165]
+
+theorem hyp2 : Hyp cfg1 ops2 := by
+  refine ⟨by decide, by decide, ?_⟩
+  simp only [ops2, ev1, SafeExpiry, List.mem_cons, List.not_mem_nil, or_false, false_or,
+    true_and, and_true, forall_eq, forall_eq_or_imp, false_implies, implies_true]
+  decide
+
+def fd : Bytes := [100]
+def ve : Bytes := [101]
+def vq : Bytes := [113]
+/-- limit 4 distributed on field d: value e gets share 2, the default distribution share 1 -/
+def cfgD : Cfg := ⟨2, 10, [⟨[], 4, .count, ⟨fd, [(ve, 0)], [2], 1, true⟩⟩]⟩
+def evD (v : Bytes) (now : Int) : Op := .ev ⟨ka, now, now, 1, [(fd, v)]⟩
+/-- three e events (third over its share), three other events (one in the default share, one
+    stealing the free unit of e's share - none left - so: q passes once, steals nothing) -/
+def opsD : List Op := [evD ve 100, evD vq 101, evD ve 102, evD ve 103, evD vq 104, evD vq 105]
+
+theorem hypD : Hyp cfgD opsD :=
+  ⟨by decide, by decide, safe_of_noExpire cfgD opsD [] [] (fun _ h => by cases h) (by decide)⟩
+
+
+/-- witness: limit 1; the bucket is exhausted, the limiter expires although its bucket is still
+    retained, the next event of the same bucket passes through a fresh limiter (corpus/C16/expiry.case
+    replays it on the implementation: it was reachable with limiter_expiration < bucket_interval ×
+    buckets_count before the fix) -/
+def opsBad : List Op := [ev1 ka 100 100, ev1 ka 101 101, .expire (limKey 0 ka), ev1 ka 102 102]
+
+
+def cfgU : Cfg := ⟨2, 10, [⟨[], -1, .count, Distr.empty⟩]⟩
+
+/-- a limiter that expires only after its key was silent for a whole retained window expires safely -/
+theorem safe_of_silent (cfg : Cfg) (hc : 0 < cfg.count) : ∀ (ops : List Op) (live : List Bytes) (hist : List Ev),
+    SilentExpiry cfg live hist ops → SafeExpiry cfg live hist ops := by
+  intro ops
+  induction ops with
+  | nil => intros; trivial
+  | cons op ops ih =>
+    intro live hist hs
+    cases op with
+    | expire k => simp only [SilentExpiry] at hs; simp only [SafeExpiry]; exact ih _ _ hs
+    | ev e =>
+      simp only [SilentExpiry] at hs
+      simp only [SafeExpiry]
+      refine ⟨?_, ih _ _ hs.2⟩
+      intro k hk
+      rcases hs.1 k hk with h | h
+      · exact Or.inl h
+      · right
+        intro e' he' hk'
+        have := h e' he' hk'
+        have := (attr_window cfg e' hc).2
+        omega
+
 end FileD.ThrottleLemmas
